@@ -428,7 +428,7 @@ func use(fm *Frame, spec string, r diag.Ranger) (*Ns, error) {
 	}
 
 	// Handle imports of pre-defined modules like `builtin` and `str`.
-	if ns, ok := fm.Evaler.modules[spec]; ok {
+	if ns, ok := fm.Evaler.loadedModule(spec); ok {
 		return ns, nil
 	}
 	if code, ok := fm.Evaler.BundledModules[spec]; ok {
@@ -452,9 +452,8 @@ func use(fm *Frame, spec string, r diag.Ranger) (*Ns, error) {
 	return nil, NoSuchModule{spec}
 }
 
-// TODO: Make access to fm.Evaler.modules concurrency-safe.
 func useFromFile(fm *Frame, spec, path string, r diag.Ranger) (*Ns, error) {
-	if ns, ok := fm.Evaler.modules[path]; ok {
+	if ns, ok := fm.Evaler.loadedModule(path); ok {
 		return ns, nil
 	}
 	_, err := os.Stat(path + ".so")
@@ -484,8 +483,8 @@ func useFromFile(fm *Frame, spec, path string, r diag.Ranger) (*Ns, error) {
 		t := reflect.TypeOf(sym).Elem()
 		return nil, PluginLoadError{spec, fmt.Errorf("Ns symbol has wrong type %s", t)}
 	}
-	fm.Evaler.modules[path] = *ns
-	return *ns, nil
+	installed, _ := fm.Evaler.installModule(path, *ns)
+	return installed, nil
 }
 
 func readFileUTF8(fname string) (string, error) {
@@ -499,7 +498,6 @@ func readFileUTF8(fname string) (string, error) {
 	return string(bytes), nil
 }
 
-// TODO: Make access to fm.Evaler.modules concurrency-safe.
 func evalModule(fm *Frame, key string, src parse.Source, r diag.Ranger) (*Ns, error) {
 	ns, exec, err := fm.PrepareEval(src, r, new(Ns))
 	if err != nil {
@@ -507,11 +505,18 @@ func evalModule(fm *Frame, key string, src parse.Source, r diag.Ranger) (*Ns, er
 	}
 	// Installs the namespace before executing. This prevent circular use'es
 	// from resulting in an infinite recursion.
-	fm.Evaler.modules[key] = ns
+	//
+	// If another goroutine has installed the module since the caller looked it
+	// up, use that namespace and do not evaluate the module a second time. The
+	// Evaler's mutex is not held while the module runs, since the module may
+	// itself use other modules.
+	if installed, fresh := fm.Evaler.installModule(key, ns); !fresh {
+		return installed, nil
+	}
 	err = exec()
 	if err != nil {
 		// Unload the namespace.
-		delete(fm.Evaler.modules, key)
+		fm.Evaler.uninstallModule(key, ns)
 		return nil, err
 	}
 	return ns, nil
